@@ -353,4 +353,67 @@ elim=> {fh fu A}.
 Qed.
 End Hist.
 
+
+(* ---- QobjEvo.__call__ : out = c0*A0 + c1*A1 + ..., isherm = AND over the
+   terms of (<bint> A_k._isherm and c_k real), reported as `isherm or None` *)
+Section QobjEvoCall.
+Variable n : nat.
+(* a term: coefficient value, operator, cached flag of the operator, and
+   the outcome of the test `coeff.imag == 0` *)
+Definition qterm := (R * 'M[R]_n * pyval * bool)%type.
+Definition qt_ok (t : qterm) : Prop :=
+  let '(c, A, f, r) := t in sound_h f A /\ (r -> conj c = c).
+Definition qt_val (t : qterm) : 'M[R]_n := let '(c, A, _, _) := t in c *: A.
+Definition qt_env (acc : pyval) (t : qterm) : fenv :=
+  let '(_, _, f, r) := t in mkenv acc PNone f PNone r false.
+Fixpoint all_ok (ts : seq qterm) : Prop :=
+  if ts is t :: ts' then qt_ok t /\ all_ok ts' else True.
+
+Definition qevo_loop (acc : pyval * 'M[R]_n) (ts : seq qterm) : pyval * 'M[R]_n :=
+  foldl (fun a t => (qevo_step_herm (qt_env a.1 t), a.2 + qt_val t)) acc ts.
+
+Definition qevo_call (t0 : qterm) (ts : seq qterm) : pyval * 'M[R]_n :=
+  let a := qevo_loop (qevo_init_herm (qt_env PNone t0), qt_val t0) ts in
+  (qevo_final_herm (mkenv a.1 PNone PNone PNone false false), a.2).
+
+Lemma truthy_py_and a b : truthy (py_and a b) = truthy a && truthy b.
+Proof. by case: a=> [|[]]; case: b=> [|[]]. Qed.
+
+Lemma qevo_loop_sound ts : forall acc S,
+  (truthy acc -> is_herm S) -> all_ok ts ->
+  truthy (qevo_loop (acc, S) ts).1 -> is_herm (qevo_loop (acc, S) ts).2.
+Proof.
+elim: ts=> [|t ts IH] acc S Hacc /=; first by move=> _.
+move=> [Ht Hts]; apply: IH=> //.
+case: t Ht {Hts}=> [[[c A] f] r] /= [Hs Hr].
+rewrite /qevo_step_herm !truthy_py_and /= => /andP [Ha /andP [Hf Hreal]].
+apply: herm_add; first exact: (Hacc Ha).
+case: f Hs Hf=> [|[]] //= Hs _.
+case: r Hr Hreal=> //= Hr _.
+by apply: herm_scale=> //; apply: Hr.
+Qed.
+
+Lemma qevo_first_sound c (A : 'M[R]_n) f (r : bool) :
+  sound_h f A -> (r -> conj c = c) ->
+  truthy (qevo_init_herm (mkenv PNone PNone f PNone r false)) -> is_herm (c *: A).
+Proof.
+move=> Hs Hr; rewrite /qevo_init_herm truthy_py_and /= => /andP [Hf Hreal].
+case: f Hs Hf=> [|[]] //= Hs _.
+case: r Hr Hreal=> //= Hr _.
+by apply: herm_scale=> //; apply: Hr.
+Qed.
+
+(* the flag attached by QobjEvo.__call__ never contradicts the evaluated
+   operator (it is True or None) *)
+Lemma qevo_call_sound t0 ts : qt_ok t0 -> all_ok ts ->
+  sound_h (qevo_call t0 ts).1 (qevo_call t0 ts).2.
+Proof.
+case: t0=> [[[c A] f] r] /= [Hs Hr] Hts; rewrite /qevo_call /qevo_final_herm /=.
+have Ha := @qevo_loop_sound ts _ _ (qevo_first_sound Hs Hr) Hts.
+move: Ha; set a := qevo_loop _ ts => Ha.
+rewrite /py_or; case E: (truthy a.1)=> //=.
+by case: (a.1) E Ha=> [|[]] //= _ Ha; apply: Ha.
+Qed.
+End QobjEvoCall.
+
 End Sound.
